@@ -196,6 +196,22 @@ class World:
         self._utxo_cache = {}     # block hash -> utxo dict
         self.features = set()     # shape features actually generated (for evidence floors)
         self.genesis = None
+        self.pending_cb = []      # pre-ground colliding coinbase txs still to be spliced in
+        self.coll_hashes = set()  # hashes of all colliding txs used
+        self.coll_prob = 0.5
+
+    def use_collisions(self, nfam=2, rng=None):
+        '''Schedule nfam families of colliding coinbases to be used as coinbases of coming blocks.'''
+        rng = rng or self.rng
+        fams = load_collision_corpus()
+        if not fams:
+            return
+        for fam in rng.sample(fams, min(nfam, len(fams))):
+            txs = [parse_tx(raw) for raw in fam]
+            txs = [t for t in txs if t.hash not in self.txs]
+            rng.shuffle(txs)
+            self.pending_cb.extend(txs)
+        rng.shuffle(self.pending_cb)
 
     # -- chain state
     def utxos(self, tip):
@@ -319,6 +335,10 @@ class World:
         rng = rng or self.rng
         h = prev.height + 1 if prev else 0
         u = dict(self.utxos(prev))
+        if coinbase is None and self.pending_cb and rng.random() < self.coll_prob:
+            coinbase = self.pending_cb.pop()
+            self.coll_hashes.add(coinbase.hash)
+            self.features.add('collision_coinbase')
         cb = coinbase or self.coinbase(h)
         txs = [cb]
         self.apply_tx(u, cb, h)
@@ -328,7 +348,10 @@ class World:
         if ntx is None:
             ntx = rng.choice((0, 0, 1, 2, 3, 5))
         for _ in range(ntx):
-            t = self.random_tx(u, h, rng)
+            prefer = None
+            if self.coll_hashes and rng.random() < 0.35:
+                prefer = [o for o in u if o[0] in self.coll_hashes]
+            t = self.random_tx(u, h, rng, prefer=prefer)
             if t is None:
                 break
             txs.append(t)
@@ -440,6 +463,34 @@ class World:
         # preserve original order
         self.mempool = {h: t for h, t in self.mempool.items() if h in keep}
         del confirmed
+
+    def fork(self, depth, newlen, *, remine=0.5, rng=None, **kw):
+        '''Create (not switch to) a branch forking depth blocks below the active tip with newlen blocks.
+        Some transactions of the abandoned blocks are re-mined (possibly at other heights) when still valid.'''
+        rng = rng or self.rng
+        base = self.tip.ancestor(self.tip.height - depth)
+        abandoned = [t for b in self.tip.chain()[base.height + 1:] for t in b.txs if not t.is_coinbase]
+        tip = base
+        for i in range(newlen):
+            u = self.utxos(tip)
+            avail = set(u)
+            extra = []
+            rest = []
+            for t in abandoned:
+                if rng.random() < remine and all(o in avail for o in t.prevouts()):
+                    for o in t.prevouts():
+                        avail.discard(o)
+                    for j in range(len(t.outs)):
+                        if not unspendable(t.outs[j][1], tip.height + 1, self.activation):
+                            avail.add((t.hash, j))
+                    extra.append(t)
+                else:
+                    rest.append(t)
+            abandoned = rest
+            if extra:
+                self.features.add('remined_tx')
+            tip = self.make_block(tip, extra=extra, rng=rng, **kw)
+        return tip
 
     def switch_to(self, tip):
         self.tip = tip
